@@ -84,7 +84,7 @@ def join_everything_in_dependency_order(ctx):
     for ex, cs in joins.items():
         st = executor_stage(ex)
         if st:
-            pos[st] = min(c.lineno * 1000 + c.col_offset for c in cs)
+            pos[st] = min(c._pos for c in cs)
     ctx.extra['submits_to'] = sorted(f'{a}->{b}' for a, b in edges)
     for a, b in sorted(edges):
         if a == 'user' or a == b:
